@@ -96,6 +96,10 @@ func (b *assignmentBuilder) structToStruct(lhsStruct, rhsStruct bmodel.Node, add
 		if !b.isStructFieldAccessible(lhsStruct, lhsField.ObjName()) {
 			return
 		}
+		if lhsField.ObjName() == "_" {
+			// A blank field can be neither read nor assigned.
+			return
+		}
 
 		var a gmodel.Assignment
 		a, err = b.matchStructFieldAndStruct(lhsField, rhsStruct, additionalArgs)
